@@ -19,7 +19,7 @@ use shared::hybrid::{
     encode_hybrid_results_as_rdf_star, HybridConfig, HybridError, HybridProbabilityResult,
     SeedSnapshot,
 };
-use std::collections::HashMap;
+use std::collections::{HashMap, HashSet};
 use std::sync::Arc;
 
 #[cfg(not(test))]
@@ -32,6 +32,10 @@ pub struct SimpleR2R {
     pub execution_mode: QueryExecutionMode,
     pub rules: Vec<Rule>,
     derived_triples: Vec<Triple>,
+    /// Triples currently asserted by window content; a triple that was derived
+    /// in the last cycle and has since arrived as input must survive the
+    /// eviction of last cycle's derived triples.
+    asserted_triples: HashSet<Triple>,
     hybrid_config: Option<HybridConfig>,
     live_seed_snapshot: SeedSnapshot,
     last_hybrid_results: HashMap<Triple, HybridProbabilityResult>,
@@ -45,6 +49,7 @@ impl SimpleR2R {
             execution_mode: QueryExecutionMode::Standard,
             rules: Vec::new(),
             derived_triples: Vec::new(),
+            asserted_triples: HashSet::new(),
             hybrid_config: None,
             live_seed_snapshot: SeedSnapshot::default(),
             last_hybrid_results: HashMap::new(),
@@ -58,6 +63,7 @@ impl SimpleR2R {
             execution_mode,
             rules: Vec::new(),
             derived_triples: Vec::new(),
+            asserted_triples: HashSet::new(),
             hybrid_config: None,
             live_seed_snapshot: SeedSnapshot::default(),
             last_hybrid_results: HashMap::new(),
@@ -133,17 +139,21 @@ impl R2ROperator<Triple, Vec<PhysicalOperator>, Vec<(String, String)>> for Simpl
     }
 
     fn add(&mut self, data: Triple) {
+        self.asserted_triples.insert(data.clone());
         self.item.add_triple(data);
     }
 
     fn remove(&mut self, data: &Triple) {
+        self.asserted_triples.remove(data);
         self.item.delete_triple(data);
     }
 
     fn materialize(&mut self) -> Vec<Triple> {
         // Evict derived triples from the previous cycle
         for t in &self.derived_triples {
-            self.item.delete_triple(t);
+            if !self.asserted_triples.contains(t) {
+                self.item.delete_triple(t);
+            }
         }
         self.derived_triples.clear();
 
